@@ -73,6 +73,7 @@ def main():
                 if c.returncode == 2:
                     print("   " + "\n   ".join(c.stdout.splitlines()[-5:]))
         finally:
+            json.dump(results, open(res_path, "w"), indent=1, sort_keys=True)
             sh(["git", "-C", "/repo", "checkout", "--", "."])
             if not repo_clean():
                 print("ERROR: could not restore /repo")
